@@ -62,6 +62,7 @@ def run(ctx):
         if len(ctx.cov['samples']) < 3:
             ctx.sample({'case': case, 'rex': rexes})
     M.compare_with_model(ctx, cases)
+    M.check_oracle_hypotheses(ctx, cases)
     # other entry points: extract() and pdextract (pandas columns)
     import pandas as pd
     for it in range(60 if ctx.quick else 2000):
